@@ -164,6 +164,12 @@ def run_and_record(exe, pid, cases, extra_opts=(), answer=None, keep=False):
     for c in cases:
         prepare(c)
         c["opts_full"] = [EPS_OPT] + list(c["opts"]) + list(extra_opts)
+        if c.get("decoy"):
+            # C12: the NL file gets a second, linear objective of the opposite sense before ("first") or after
+            # ("last") the generated one; the case's options select the generated one, which alone is judged
+            real = c["model"]["objs"]
+            dec = {"max": not real[0]["max"], "lin": [[0, 7]], "expr": None}
+            c["model"] = dict(c["model"], objs=[dec] + real if c["decoy"] == "first" else real + [dec])
     runs = drv.run_cases(exe, pid, [{"id": c["id"], "model": c["model"], "opts": c["opts_full"],
                                       "answer": answer if answer is not None else "status 0 ok\n"} for c in cases], keep=keep)
     recs = []
